@@ -123,37 +123,59 @@ package smf
 // d = the stream's data, p0 = position after the canary, rs = running status before the event, k = evKind(canary, rs)
 //@ macro ek(r, b) = evKind(b, rrs(r))
 // length field of a sysex / meta event at p
-//@ macro vq(d, p) = vlqAcc(d, p, vlqSpan(d, p))
+//@ macro vq(d, p) = vqAt(d, p)
+
+// The decoded event, as a relation between the kind k, the first byte b, the running status rs, the stream data d,
+// the position p0 after that first byte, the message m, the error, and the stream position sp afterwards:
+//   channel message with its status byte (two or one data bytes)
+//@ macro evA(k, b, m, err, d, p0, sp) = (k == 3 && chNeed2(b) && err == nil && len(m) != 0) ==> (len(m) == 3 && m[0] == b && m[1] == d[p0] && m[2] == d[p0 + 1] && sp == p0 + 2)
+//@ macro evB(k, b, m, err, d, p0, sp) = (k == 3 && !chNeed2(b) && err == nil) ==> (len(m) == 2 && m[0] == b && m[1] == d[p0] && sp == p0 + 1)
+//   channel message in running status: b is the first data byte
+//@ macro evC(k, b, rs, m, err, d, p0, sp) = (k == 4 && chNeed2(rs) && err == nil && len(m) != 0) ==> (len(m) == 3 && m[0] == rs && m[1] == b && m[2] == d[p0] && sp == p0 + 1)
+//@ macro evD(k, b, rs, m, err, sp, p0) = (k == 4 && !chNeed2(rs) && err == nil) ==> (len(m) == 2 && m[0] == rs && m[1] == b && sp == p0)
+//   sysex / escape: F0 or F7, length, that many bytes; the message is the status byte followed by the bytes
+//@ macro evS1(k, b, m, err, d, p0, sp) = (k == 2 && err == nil) ==> (vlqEndsAt(d, p0, vlqSpan(d, p0)) && len(m) == 1 + int(vq(d, p0)) && m[0] == b && sp == p0 + vlqSpan(d, p0) + len(m) - 1)
+//@ macro evS2(k, m, err, d, p0) = (k == 2 && err == nil) ==> forall i int :: 0 <= i && i < len(m) - 1 ==> m[1 + i] == d[p0 + vlqSpan(d, p0) + i]
+//   meta event: FF type length bytes; the message is FF type vlq(length) bytes (minimal length encoding)
+//@ macro evM1(k, err, d, p0) = (k == 1 && err == nil) ==> vlqEndsAt(d, p0 + 1, vlqSpan(d, p0 + 1))
+//@ macro evM2(k, m, err, d, p0) = (k == 1 && err == nil) ==> (m[0] == 0xFF && m[1] == d[p0])
+//@ macro evM3(k, err, d, p0, sp) = (k == 1 && err == nil) ==> sp == p0 + 1 + vlqSpan(d, p0 + 1) + int(vq(d, p0 + 1))
+//@ macro evM4(k, m, err, d, p0) = (k == 1 && err == nil) ==> len(m) == 2 + vlqLen(vq(d, p0 + 1)) + int(vq(d, p0 + 1))
+//@ macro evM5(k, m, err, d, p0) = (k == 1 && err == nil) ==> vlqAt(m, 2, vq(d, p0 + 1))
+//@ macro evM6(k, m, err, d, p0) = (k == 1 && err == nil) ==> forall i int :: 0 <= i && i < int(vq(d, p0 + 1)) ==> m[2 + vlqLen(vq(d, p0 + 1)) + i] == d[p0 + 1 + vlqSpan(d, p0 + 1) + i]
+
+//   when the bytes are there and the source does not fail, the event is read (sysex, meta; c = bytes of the length field)
+//@ macro evOkS(k, err, d, p0, n, ok) = (k == 2 && ok && vlqEnd(d, p0, vlqSpan(d, p0)) && vlqSpan(d, p0) <= 5 && n - p0 >= vlqSpan(d, p0) + int(vq(d, p0))) ==> err == nil
+//@ macro evOkM(k, err, d, p0, n, ok) = (k == 1 && ok && vlqEnd(d, p0 + 1, vlqSpan(d, p0 + 1)) && vlqSpan(d, p0 + 1) <= 5 && n - p0 >= 1 + vlqSpan(d, p0 + 1) + int(vq(d, p0 + 1))) ==> err == nil
 
 //@ func (*reader)._readEvent
-//@ uses vlqSpanDef
+//@ uses vlqSpanDef, vqAt.def, vlqEndIs5
 //@ requires rdInv(r) && r.processedTracks >= -1 && r.processedTracks < 65535
 //@ modifies r.isDone, r.expectChunk, r.input.spos, r.input.sfault, *asptr(r.runningStatus, runningstatus.smfreader)
 //@ ensures [H] rdInv(r)
 //@ ensures [P:C02] old(ek(r, canary)) != 0 ==> rrs(r) == evRS(canary, old(rrs(r)))
 // (k == 0, a byte that cannot start an event of a valid file: the properties ask for no panic only; the code
 // reports an error unless a running status is in effect, in which case the byte is taken for a data byte)
-// channel message with its status byte
-//@ ensures [P:C02] old(ek(r, canary)) == 3 && chNeed2(canary) && err == nil && len(m) != 0 ==> (len(m) == 3 && m[0] == canary && m[1] == r.input.sdata[old(r.input.spos)] && m[2] == r.input.sdata[old(r.input.spos) + 1] && r.input.spos == old(r.input.spos) + 2)
-//@ ensures [P:C02] old(ek(r, canary)) == 3 && !chNeed2(canary) && err == nil ==> (len(m) == 2 && m[0] == canary && m[1] == r.input.sdata[old(r.input.spos)] && r.input.spos == old(r.input.spos) + 1)
-// channel message in running status: the canary is the first data byte
-//@ ensures [P:C02] old(ek(r, canary)) == 4 && chNeed2(old(rrs(r))) && err == nil && len(m) != 0 ==> (len(m) == 3 && m[0] == old(rrs(r)) && m[1] == canary && m[2] == r.input.sdata[old(r.input.spos)] && r.input.spos == old(r.input.spos) + 1)
-//@ ensures [P:C02] old(ek(r, canary)) == 4 && !chNeed2(old(rrs(r))) ==> (err == nil && len(m) == 2 && m[0] == old(rrs(r)) && m[1] == canary && r.input.spos == old(r.input.spos) && r.input.sfault == old(r.input.sfault))
+//@ ensures [P:C02] evA(old(ek(r, canary)), canary, m, err, r.input.sdata, old(r.input.spos), r.input.spos)
+//@ ensures [P:C02] evB(old(ek(r, canary)), canary, m, err, r.input.sdata, old(r.input.spos), r.input.spos)
+//@ ensures [P:C02] evC(old(ek(r, canary)), canary, old(rrs(r)), m, err, r.input.sdata, old(r.input.spos), r.input.spos)
+//@ ensures [P:C02] evD(old(ek(r, canary)), canary, old(rrs(r)), m, err, r.input.spos, old(r.input.spos))
+//@ ensures [P:C02] old(ek(r, canary)) == 4 && !chNeed2(old(rrs(r))) ==> (err == nil && r.input.sfault == old(r.input.sfault))
 // a failure while the last data byte is read is not reported here: an empty message comes back and the stream is
 // exhausted or faulty, so that the next read fails (see DESIGN, D10)
 //@ ensures [P:C05] err == nil && len(m) == 0 ==> ((r.input.sfault != nil || r.input.spos == r.input.sn) && (old(ek(r, canary)) == 3 || old(ek(r, canary)) == 4 || old(ek(r, canary)) == 0))
 //@ ensures [P:C09] old(ek(r, canary)) == 3 && r.input.sfault == nil && old(r.input.sn) - old(r.input.spos) >= (chNeed2(canary) ? 2 : 1) ==> (err == nil && len(m) != 0)
 //@ ensures [P:C09] old(ek(r, canary)) == 4 && r.input.sfault == nil && old(r.input.sn) - old(r.input.spos) >= 1 ==> (err == nil && len(m) != 0)
-// sysex / escape: F0 or F7, length, that many bytes; the message is the status byte followed by the bytes
-//@ ensures [P:C02] old(ek(r, canary)) == 2 && err == nil ==> (vlqEndsAt(r.input.sdata, old(r.input.spos), vlqSpan(r.input.sdata, old(r.input.spos))) && len(m) == 1 + int(vq(r.input.sdata, old(r.input.spos))) && m[0] == canary && r.input.spos == old(r.input.spos) + vlqSpan(r.input.sdata, old(r.input.spos)) + len(m) - 1)
-//@ ensures [P:C02] old(ek(r, canary)) == 2 && err == nil ==> forall i int :: 0 <= i && i < len(m) - 1 ==> m[1 + i] == r.input.sdata[old(r.input.spos) + vlqSpan(r.input.sdata, old(r.input.spos)) + i]
-// meta event: FF type length bytes; the message is FF type vlq(length) bytes (minimal length encoding)
-//@ ensures [P:C02] old(ek(r, canary)) == 1 && err == nil ==> vlqEndsAt(r.input.sdata, old(r.input.spos) + 1, vlqSpan(r.input.sdata, old(r.input.spos) + 1))
-//@ ensures [P:C02] old(ek(r, canary)) == 1 && err == nil ==> (m[0] == 0xFF && m[1] == r.input.sdata[old(r.input.spos)])
-//@ ensures [P:C02] old(ek(r, canary)) == 1 && err == nil ==> r.input.spos == old(r.input.spos) + 1 + vlqSpan(r.input.sdata, old(r.input.spos) + 1) + int(vq(r.input.sdata, old(r.input.spos) + 1))
-//@ ensures [P:C02] old(ek(r, canary)) == 1 && err == nil ==> len(m) == 2 + vlqLen(vq(r.input.sdata, old(r.input.spos) + 1)) + int(vq(r.input.sdata, old(r.input.spos) + 1))
-//@ ensures [P:C02] old(ek(r, canary)) == 1 && err == nil ==> vlqAt(m, 2, vq(r.input.sdata, old(r.input.spos) + 1))
-//@ ensures [P:C02] old(ek(r, canary)) == 1 && err == nil ==> forall i int :: 0 <= i && i < int(vq(r.input.sdata, old(r.input.spos) + 1)) ==> m[2 + vlqLen(vq(r.input.sdata, old(r.input.spos) + 1)) + i] == r.input.sdata[old(r.input.spos) + 1 + vlqSpan(r.input.sdata, old(r.input.spos) + 1) + i]
+//@ ensures [P:C09] evOkS(old(ek(r, canary)), err, r.input.sdata, old(r.input.spos), old(r.input.sn), old(r.input.sfault) == nil && r.input.sfault == nil)
+//@ ensures [P:C09] evOkM(old(ek(r, canary)), err, r.input.sdata, old(r.input.spos), old(r.input.sn), old(r.input.sfault) == nil && r.input.sfault == nil)
+//@ ensures [P:C02] evS1(old(ek(r, canary)), canary, m, err, r.input.sdata, old(r.input.spos), r.input.spos)
+//@ ensures [P:C02] evS2(old(ek(r, canary)), m, err, r.input.sdata, old(r.input.spos))
+//@ ensures [P:C02] evM1(old(ek(r, canary)), err, r.input.sdata, old(r.input.spos))
+//@ ensures [P:C02] evM2(old(ek(r, canary)), m, err, r.input.sdata, old(r.input.spos))
+//@ ensures [P:C02] evM3(old(ek(r, canary)), err, r.input.sdata, old(r.input.spos), r.input.spos)
+//@ ensures [P:C02] evM4(old(ek(r, canary)), m, err, r.input.sdata, old(r.input.spos))
+//@ ensures [P:C02] evM5(old(ek(r, canary)), m, err, r.input.sdata, old(r.input.spos))
+//@ ensures [P:C02] evM6(old(ek(r, canary)), m, err, r.input.sdata, old(r.input.spos))
 //@ ensures [H] err == nil && len(m) > 0 && m[0] == 0xFF ==> old(ek(r, canary)) == 1
 // end of track: the last announced track finishes the file, any other is followed by a chunk
 //@ ensures [P:C02] (old(ek(r, canary)) == 1 && err == nil && r.input.sdata[old(r.input.spos)] == 0x2F) ==> ((uint16(r.processedTracks + 1) == r.SMF.numTracks) ? (r.isDone && r.expectChunk == old(r.expectChunk)) : (r.expectChunk && r.isDone == old(r.isDone)))
@@ -164,15 +186,37 @@ package smf
 //@ ensures [H] r.input.sfault == nil ==> old(r.input.sfault) == nil
 //@ ensures [H] err != nil && r.input.sfault == nil && old(ek(r, canary)) != 0 ==> ((err == io.EOF || err == utils.ErrUnexpectedEOF) && r.input.spos == r.input.sn)
 //@ ensures [H] err != ErrFinished
+//@ ensures [H] old(r.input.sgreedy) && old(r.input.sfault) == nil ==> r.input.sfault == nil
 
 // ---------------------------------------------------------------- delta time + event
+// the event itself: first byte b = d[P + c] after the delta time of c bytes at P, decoded as above from P + c + 1
+//@ macro reB(r) = r.input.sdata[old(r.input.spos) + vlqSpan(r.input.sdata, old(r.input.spos))]
+//@ macro reP(r) = old(r.input.spos) + vlqSpan(r.input.sdata, old(r.input.spos)) + 1
+//@ macro reK(r) = evKind(reB(r), old(rrs(r)))
 //@ func (*reader).readEvent
-//@ uses vlqSpanDef
+//@ uses vlqSpanDef, vqAt.def, vlqEndIs5
 //@ requires rdInv(r) && r.processedTracks >= -1 && r.processedTracks < 65535
 //@ modifies r.deltatime, r.isDone, r.expectChunk, r.input.spos, r.input.sfault, *asptr(r.runningStatus, runningstatus.smfreader)
 //@ ensures [H] rdInv(r)
 //@ ensures [H] old(r.error) != nil ==> (err == old(r.error) && r.input.spos == old(r.input.spos) && r.input.sfault == old(r.input.sfault) && r.isDone == old(r.isDone) && r.expectChunk == old(r.expectChunk) && r.deltatime == old(r.deltatime))
 //@ ensures [P:C02] old(r.error) == nil && err == nil ==> (vlqEndsAt(r.input.sdata, old(r.input.spos), vlqSpan(r.input.sdata, old(r.input.spos))) && r.deltatime == vq(r.input.sdata, old(r.input.spos)) && r.input.spos >= old(r.input.spos) + vlqSpan(r.input.sdata, old(r.input.spos)) + 1)
+//@ ensures [P:C02] old(r.error) == nil ==> evA(reK(r), reB(r), m, err, r.input.sdata, reP(r), r.input.spos)
+//@ ensures [P:C02] old(r.error) == nil ==> evB(reK(r), reB(r), m, err, r.input.sdata, reP(r), r.input.spos)
+//@ ensures [P:C02] old(r.error) == nil ==> evC(reK(r), reB(r), old(rrs(r)), m, err, r.input.sdata, reP(r), r.input.spos)
+//@ ensures [P:C02] old(r.error) == nil ==> evD(reK(r), reB(r), old(rrs(r)), m, err, r.input.spos, reP(r))
+//@ ensures [P:C09] old(r.error) == nil ==> evOkS(reK(r), err, r.input.sdata, reP(r), old(r.input.sn), old(r.input.sfault) == nil && r.input.sfault == nil && vlqEnd(r.input.sdata, old(r.input.spos), vlqSpan(r.input.sdata, old(r.input.spos))) && vlqSpan(r.input.sdata, old(r.input.spos)) <= 5 && old(r.input.sn) >= reP(r))
+//@ ensures [P:C09] old(r.error) == nil ==> evOkM(reK(r), err, r.input.sdata, reP(r), old(r.input.sn), old(r.input.sfault) == nil && r.input.sfault == nil && vlqEnd(r.input.sdata, old(r.input.spos), vlqSpan(r.input.sdata, old(r.input.spos))) && vlqSpan(r.input.sdata, old(r.input.spos)) <= 5 && old(r.input.sn) >= reP(r))
+//@ ensures [P:C02] old(r.error) == nil ==> evS1(reK(r), reB(r), m, err, r.input.sdata, reP(r), r.input.spos)
+//@ ensures [P:C02] old(r.error) == nil ==> evS2(reK(r), m, err, r.input.sdata, reP(r))
+//@ ensures [P:C02] old(r.error) == nil ==> evM1(reK(r), err, r.input.sdata, reP(r))
+//@ ensures [P:C02] old(r.error) == nil ==> evM2(reK(r), m, err, r.input.sdata, reP(r))
+//@ ensures [P:C02] old(r.error) == nil ==> evM3(reK(r), err, r.input.sdata, reP(r), r.input.spos)
+//@ ensures [P:C02] old(r.error) == nil ==> evM4(reK(r), m, err, r.input.sdata, reP(r))
+//@ ensures [P:C02] old(r.error) == nil ==> evM5(reK(r), m, err, r.input.sdata, reP(r))
+//@ ensures [P:C02] old(r.error) == nil ==> evM6(reK(r), m, err, r.input.sdata, reP(r))
+//@ ensures [P:C02] old(r.error) == nil && err == nil && reK(r) != 0 ==> rrs(r) == evRS(reB(r), old(rrs(r)))
+//@ ensures [P:C09] old(r.error) == nil && old(r.input.sfault) == nil && r.input.sfault == nil && vlqEnd(r.input.sdata, old(r.input.spos), vlqSpan(r.input.sdata, old(r.input.spos))) && reK(r) == 3 && old(r.input.sn) - reP(r) >= (chNeed2(reB(r)) ? 2 : 1) && vlqSpan(r.input.sdata, old(r.input.spos)) <= 5 ==> (err == nil && len(m) != 0)
+//@ ensures [P:C09] old(r.error) == nil && old(r.input.sfault) == nil && r.input.sfault == nil && vlqEnd(r.input.sdata, old(r.input.spos), vlqSpan(r.input.sdata, old(r.input.spos))) && reK(r) == 4 && old(r.input.sn) - reP(r) >= (chNeed2(old(rrs(r))) ? 1 : 0) && vlqSpan(r.input.sdata, old(r.input.spos)) <= 5 ==> (err == nil && len(m) != 0)
 //@ ensures [P:C05] old(r.error) == nil && err == nil ==> r.input.spos > old(r.input.spos)
 //@ ensures [P:C05] old(r.error) == nil && err == nil && len(m) == 0 ==> (r.input.sfault != nil || r.input.spos == r.input.sn)
 //@ ensures [P:C05] err == nil && len(m) == 0 ==> (r.isDone == old(r.isDone) && r.expectChunk == old(r.expectChunk))
@@ -184,6 +228,7 @@ package smf
 //@ ensures [P:C10] err == io.EOF && old(r.error) == nil ==> r.input.sfault == nil
 //@ ensures [P:C10] old(r.input.sfault) != nil && old(r.error) == nil ==> err != nil
 //@ ensures [H] old(r.error) == nil ==> err != ErrFinished
+//@ ensures [H] old(r.input.sgreedy) && old(r.input.sfault) == nil ==> r.input.sfault == nil
 //@ ensures [H] old(r.input.spos) <= r.input.spos && r.input.spos <= r.input.sn
 //@ ensures [H] r.input.sfault == nil ==> old(r.input.sfault) == nil
 
